@@ -476,6 +476,10 @@ class Program:
             # single local assignment
             for n in walk_scope(f.node):
                 if isinstance(n, ast.Assign) and len(n.targets) == 1 and isinstance(n.targets[0], ast.Name) and n.targets[0].id == expr.id:
+                    if getattr(n, "_annotation", None) is not None:
+                        t = self._ann_class(f.module, n._annotation)
+                        if t:
+                            return t
                     return self.expr_class(f, n.value)
                 if isinstance(n, ast.AnnAssign) and isinstance(n.target, ast.Name) and n.target.id == expr.id:
                     return self._ann_class(f.module, n.annotation)
